@@ -11,7 +11,7 @@ ID = "C06"
 MIN_NONTRIVIAL = 0.4
 RULE = ("Hypothesis: well-formed notes on 2 channels over 1-3 pitches (abutting repeated pitches and notes shorter than the "
         "smallest value biased), signatures and control/program changes as non-note events, any construction route; "
-        "note-value lists of 1-5 positive ints from {1,2,3,4,5,6,7,8,12,16,24,36,48} in any order (duplicates allowed) x "
+        "note-value lists of 0-5 positive ints from {1,2,3,4,5,6,7,8,12,16,24,36,48} in any order (duplicates allowed) x "
         "do_not_extend. Oracle (reference model): notes matched by (channel, pitch, onset); fit = values v with onset+v <= "
         "next onset of the key (and v <= old duration if do_not_extend); note present iff fit non-empty, then duration in "
         "argmin |v-old| over fit; velocity/onset/pitch/channel unchanged; non-note events identical; no overlap. "
@@ -25,14 +25,14 @@ VALUES = [1, 2, 3, 4, 5, 6, 7, 8, 12, 16, 24, 36, 48]
 
 @st.composite
 def _case(draw, size=1):
-    pitches = draw(st.sampled_from([(60,), (60, 61), (60, 61, 62), (21, 108), (0, 127)]))
+    pitches = draw(gens.pitch_pool([(60,), (60, 61), (60, 61, 62)]))
     notes = draw(gens.wellformed_notes(channels=(0, 1), pitches=pitches, max_notes=9 * size, max_len=50, max_gap=30))
     meta = draw(gens.meta_events(max_tick=150, max_events=3, with_noise=True))
     spec = {"notes": notes, "meta": meta}
     spec.update(draw(gens.route()))
     end = max([n[3] for n in notes] + [m[1] for m in meta] + [0])
     spec["pad"] = draw(st.one_of(st.none(), st.just(end + draw(st.integers(0, 30)))))
-    values = draw(st.one_of(st.lists(st.sampled_from(VALUES), min_size=1, max_size=5),
+    values = draw(st.one_of(st.lists(st.sampled_from(VALUES), min_size=0, max_size=5),
                             st.sampled_from([[24, 12, 6, 16, 8, 4, 36, 18, 9], [12], [4, 2], [48, 24], [3, 5]])))
     return {"seq": spec, "values": list(values), "dne": draw(st.booleans())}
 
